@@ -26,7 +26,8 @@ let rd_vstep r : float vstep =
   | "df" -> VDefault
   | "cp" | "eq" | "se" -> VCopy
   | "qn" | "qN" | "qz" | "qp" -> VQNorm
-  | "qd" | "qo" | "qO" | "qe" -> VQDot (list r)
+  | "qd" | "qo" | "qO" -> VQDot (list r)
+  | "qe" -> ignore (list r); VQNorm   (* operator== compares the sizes first and never exits *)
   | "qr" | "qw" -> VQRead (nat_of_int (integer r))
   | "qc" -> VQCross (list r)
   | "qa" | "qb" -> VQAngle (list r)
